@@ -179,11 +179,11 @@ def search (s : St) (rootLabel : Nat) : St × Bool :=
   let eq := ks.foldl (fun (eq : EqDB) k => eq.setVerified k) eq
   ({ s with eq := eq }, ks.contains (eq.uf.find rootLabel))
 
-/-- `has_specification()` for an iterative pack. As in the code (`base.py:73`), the label — not its
-representative — is passed as the pre-verified root (finding F1). -/
+/-- `has_specification()` for an iterative pack: the representative of the root's class is the pre-verified
+root (as repaired in /repo; the unrepaired code passed the raw label, finding F1). -/
 def searchIter (s : St) (rootLabel : Nat) : St × Bool :=
   let (eq, rd) := rulesUpToEq s
-  let pr := iterPrune rd rootLabel
+  let pr := iterPrune rd (eq.uf.find rootLabel)
   let ks := keys pr
   let eq := ks.foldl (fun (eq : EqDB) k => eq.setVerified k) eq
   ({ s with eq := eq }, ks.contains (eq.uf.find rootLabel))
